@@ -313,6 +313,13 @@ def tile_arrays(mode):
         return v.astype(dt)
 
     A, B = mk(0), mk(17)
+    if mode in ("RGB", "RGBA"):
+        # defined, opaque, pure-black pixels (what a "black to transparent" input option would erase)
+        for arr, pts in ((A, [(5, 5), (130, 60)]), (B, [(7, 9), (110, 40)])):
+            for y, x in pts:
+                arr[y, x, :3] = 0
+                if mode == "RGBA":
+                    arr[y, x, 3] = 255
     partial = A.copy()
     undef = A.copy()
     if mode == "RGB":
@@ -339,6 +346,7 @@ def persistence_job(job):
 
     mode, fmt, scheme, maxdepth = job[:4]
     explicit = len(job) > 4 and job[4]
+    prelude = len(job) > 5 and job[5]
     # explicit: the pyramid's default format is another one and every call names the format
     fk = {"format": fmt} if explicit else {}
     default_format = fmt if not explicit else ("png" if fmt != "png" else "npy")
@@ -351,7 +359,25 @@ def persistence_job(job):
 
     def bad(clause, detail, hist):
         cfg = {"mode": mode, "format": fmt, "scheme": scheme, "history": hist, "explicit_format": bool(explicit)}
+        if prelude:
+            cfg["prelude"] = "input-loader-with-options"
         part.violation("persistence/%s/mode=%s/format=%s" % (clause, mode, fmt), "%r: %s" % (cfg, detail), cfg)
+
+    def run_prelude(d):
+        """An input image loaded earlier in the same process through the command-line loader with every
+        option away from its default: tiles stored afterwards must not be affected by those options."""
+        import argparse
+        from toasty.image import ImageLoader
+        from PIL import Image as PILImage
+
+        src = os.path.join(d, "input.png")
+        if not os.path.exists(src):
+            a = np.zeros((12, 10, 3), dtype="u1")
+            a[3:, 2:] = 90
+            PILImage.fromarray(a).save(src)
+        ns = argparse.Namespace(black_to_transparent=True, colorspace_processing="none", psd_single_layer=0, crop="1,2")
+        loader = ImageLoader.create_from_args(ns)
+        loader.load_path(src)
 
     def region_src():
         a = tile_arrays(mode)[1]
@@ -466,6 +492,8 @@ def persistence_job(job):
                     ref = None
                     try:
                         with quiet():
+                            if prelude:
+                                run_prelude(d)
                             for h in hist:
                                 ref, _ = apply(pio, root, h, ref, hist)
                             # only the new step is judged (earlier steps were judged when first reached)
@@ -575,6 +603,8 @@ def run(tier, seed):
                 jobs.append(("persist", m, f, scheme, maxdepth))
             # the same histories with an explicit format= differing from the pyramid's default
             jobs.append(("persist", m, f, "L/Y/YX" if (len(m) + len(f)) % 2 else "LXY", maxdepth, True))
+    for m in ("RGB", "RGBA"):
+        jobs.append(("persist", m, "png", "L/Y/YX", maxdepth, False, True))
     for m in MODES:
         if m != "RGB":
             jobs.append(("aliasing", m, "npy"))
@@ -588,7 +618,7 @@ def replay(payload):
     if r.get("aliasing"):
         p = aliasing_job((r["mode"], r["format"]))
     elif "history" in r:
-        p = persistence_job((r["mode"], r["format"], r["scheme"], max(1, len(r["history"])), r.get("explicit_format", False)))
+        p = persistence_job((r["mode"], r["format"], r["scheme"], max(1, len(r["history"])), r.get("explicit_format", False), bool(r.get("prelude"))))
     else:
         p = buffers_job(r["mode"])
     for sig, (detail, _) in p.violations.items():
